@@ -71,13 +71,28 @@ def sync_spec(a, b):
     return b"".join(out)
 
 
-def one_case(ctx, a, b, check_model=True):
+def same_length_variant(rng, a):
+    """a with some characters inside tag-free lines replaced by other characters: same size, different bodies"""
+    out = []
+    for line in a.split(b"\n"):
+        if b"USER_" not in line and line and rng.random() < 0.6:
+            i = rng.randrange(len(line))
+            c = line[i:i + 1]
+            line = line[:i] + (b"7" if c.isdigit() and c != b"7" else b"Q" if c.isalpha() and c != b"Q" else c) + line[i + 1:]
+        out.append(line)
+    return b"\n".join(out)
+
+
+def one_case(ctx, a, b, check_model=True, same_mtime=False):
     with scratch() as d:
         os.makedirs(os.path.join(d, "s"))
         A = os.path.join(d, "A.h")
         B = os.path.join(d, "s", "B.h")
         open(A, "wb").write(a)
         open(B, "wb").write(b)
+        if same_mtime:     # files restored from an archive / copied with their timestamps: metadata says nothing about content
+            os.utime(A, (1000000000, 1000000000))
+            os.utime(B, (1000000000, 1000000000))
         Bp = B
         trace = None
         if check_model and ctx.km:
@@ -134,7 +149,13 @@ def run(ctx):
         na = rng.sample(NAMES, rng.randint(0, 4))
         nb = rng.sample(NAMES, rng.randint(0, 4))
         a, b = gen_file(rng, na), gen_file(rng, nb)
-        res = one_case(ctx, a, b)
+        if rng.random() < 0.15:
+            b = same_length_variant(rng, a)
+            nb = na
+        sm = rng.random() < 0.3
+        res = one_case(ctx, a, b, same_mtime=sm)
+        if res:
+            res["same_mtime"] = sm
         shared = set(na) & set(nb)
         ctx.case((a, b), nontrivial=bool(shared))
         ctx.count("shared_%d" % len(shared))
@@ -148,4 +169,4 @@ def replay(ctx, data):
     if data.get("no_failing_input_found"):
         print(json.dumps(data.get("no_longer_checks"), indent=1)[:3000])
         return False
-    return one_case(ctx, data["a"], data["b"], check_model=False) is None
+    return one_case(ctx, data["a"], data["b"], check_model=False, same_mtime=bool(data.get("same_mtime"))) is None
